@@ -160,4 +160,66 @@ theorem incVar_value (m : Model α) (i addr : Nat) (hfresh : findBy CLeaf.addr a
 
 end Values
 
+
+/-! ### `leaf.value = x` always overwrites the current value -/
+
+theorem findBy_setCValue_self {α : Type} (a : Nat) (x : α) (vs : List (CLeaf α)) (c : CLeaf α)
+    (h : findBy CLeaf.addr a vs = some c) :
+    findBy CLeaf.addr a (setCValue a x vs) = some { c with value := x } := by
+  induction vs with
+  | nil => simp [findBy] at h
+  | cons y ys ih =>
+    simp only [findBy] at h
+    by_cases hy : y.addr = a
+    · simp only [hy, if_true, Option.some.injEq] at h
+      subst h
+      simp [setCValue, hy, findBy]
+    · simp only [hy, if_false] at h
+      simp [setCValue, hy, findBy, ih h]
+
+theorem findBy_setCValue_none {α : Type} (a : Nat) (x : α) (vs : List (CLeaf α))
+    (h : findBy CLeaf.addr a vs = none) : findBy CLeaf.addr a (setCValue a x vs) = none := by
+  induction vs with
+  | nil => rfl
+  | cons y ys ih =>
+    simp only [findBy] at h
+    by_cases hy : y.addr = a
+    · simp [hy] at h
+    · simp only [hy, if_false] at h
+      simp [setCValue, hy, findBy, ih h]
+
+section SetValue
+variable {α : Type} (O : Ops α)
+
+/-- `var.value = x` (the setter writes `_value` AND the C++ object, unconditionally): afterwards `var.value` reads `x`,
+whatever the Python-side `_value` or the C++ value were before — no dependence on a cached copy -/
+theorem setVar_overwrites (m : Model α) (i : Nat) (x : α) : (m.setVar i x).varValue O i = x := by
+  unfold Model.setVar
+  cases hl : m.varMap.lookup i with
+  | none => simp [Model.varValue, hl, pyValueOf]
+  | some a =>
+    simp only [Model.varValue, hl]
+    cases hf : findBy CLeaf.addr a m.ev.vars with
+    | none => simp [findBy_setCValue_none a x _ hf, pyValueOf]
+    | some c => simp [findBy_setCValue_self a x _ c hf]
+
+theorem setParam_overwrites (m : Model α) (i : Nat) (x : α) : (m.setParam i x).paramValue O i = x := by
+  unfold Model.setParam
+  cases hl : m.paramMap.lookup i with
+  | none => simp [Model.paramValue, hl, pyValueOf]
+  | some a =>
+    simp only [Model.paramValue, hl]
+    cases hf : findBy CLeaf.addr a m.ev.params with
+    | none => simp [findBy_setCValue_none a x _ hf, pyValueOf]
+    | some c => simp [findBy_setCValue_self a x _ c hf]
+
+/-- and the C++ object (what `get_x`, `evaluate`, `evaluate_csr_jacobian` read) holds `x` too -/
+theorem setVar_cvalue (m : Model α) (i a : Nat) (x : α) (c : CLeaf α) (hl : m.varMap.lookup i = some a)
+    (hf : findBy CLeaf.addr a m.ev.vars = some c) :
+    findBy CLeaf.addr a (m.setVar i x).ev.vars = some { c with value := x } := by
+  simp only [Model.setVar, hl]
+  exact findBy_setCValue_self a x _ c hf
+
+end SetValue
+
 end Wntr.Aml
